@@ -782,10 +782,10 @@ func (view *View) Limit(ctx context.Context, scope *ReferenceScope, clause parse
 		return nil
 	}
 
-	if clause.WithTies() && view.sortValuesInEachRecord != nil {
-		bottomSortValues := view.sortValuesInEachRecord[limit-1]
+	if clause.WithTies() && view.sortValuesInEachRecord != nil && 0 < limit {
+		bottomSortValues := view.sortValuesInEachRecord[view.offset+limit-1]
 		for limit < view.RecordLen() {
-			if !bottomSortValues.EquivalentTo(view.sortValuesInEachRecord[limit]) {
+			if !bottomSortValues.EquivalentTo(view.sortValuesInEachRecord[view.offset+limit]) {
 				break
 			}
 			limit++
